@@ -391,6 +391,10 @@ enum AltG<const V: bool> {
     Str(String),
     Arr(Vec<AltG<V>>),
     Obj(Vec<(String, AltG<V>)>),
+    /// a second spelling of a string / of null (as BSON's Symbol and Undefined): the view has no way to tell them from `Str` / `Null`,
+    /// and `AltG<true>`, whose equality is by JSON value, treats them as equal. Only `AltG<true>` documents contain them.
+    Sym(String),
+    Undef,
 }
 impl<const V: bool> std::fmt::Debug for AltG<V> {
     fn fmt(&self, f: &mut std::fmt::Formatter<'_>) -> std::fmt::Result { write!(f, "Alt") }
@@ -413,17 +417,18 @@ impl<const V: bool> AltG<V> {
     }
     fn of(v: &Value) -> AltG<V> {
         match v {
-            Value::Null => AltG::Null,
+            Value::Null => if V { AltG::Undef } else { AltG::Null },
             Value::Bool(b) => AltG::Bool(*b),
             Value::Number(n) => if let Some(i) = n.as_i64() { AltG::Int(i) } else if let Some(u) = n.as_u64() { AltG::Uint(u) } else { AltG::Float(n.as_f64().unwrap()) },
-            Value::String(s) => AltG::Str(s.clone()),
+            Value::String(s) => if V && s.chars().count() % 2 == 1 { AltG::Sym(s.clone()) } else { AltG::Str(s.clone()) },
             Value::Array(a) => AltG::Arr(a.iter().map(AltG::<V>::of).collect()),
             Value::Object(o) => AltG::Obj(o.iter().map(|(k, v)| (k.clone(), AltG::<V>::of(v))).collect()),
         }
     }
     fn back(&self) -> Value {
         match self {
-            AltG::Null => Value::Null,
+            AltG::Null | AltG::Undef => Value::Null,
+            AltG::Sym(s) => Value::String(s.clone()),
             AltG::Bool(b) => Value::Bool(*b),
             AltG::Int(i) => Value::from(*i),
             AltG::Uint(u) => Value::from(*u),
@@ -442,9 +447,11 @@ impl<const V: bool> Queryable for AltG<V> {
     }
     fn as_array(&self) -> Option<&Vec<Self>> { match self { AltG::Arr(a) => Some(a), _ => None } }
     fn as_object(&self) -> Option<Vec<(&String, &Self)>> { match self { AltG::Obj(o) => Some(o.iter().map(|(k, v)| (k, v)).collect()), _ => None } }
-    fn as_str(&self) -> Option<&str> { match self { AltG::Str(s) => Some(s), _ => None } }
+    fn as_str(&self) -> Option<&str> { match self { AltG::Str(s) | AltG::Sym(s) => Some(s), _ => None } }
     fn as_i64(&self) -> Option<i64> { match self { AltG::Int(i) => Some(*i), AltG::Uint(u) => i64::try_from(*u).ok(), _ => None } }
-    fn as_f64(&self) -> Option<f64> { match self { AltG::Float(f) => Some(*f), AltG::Int(i) => Some(*i as f64), AltG::Uint(u) => Some(*u as f64), _ => None } }
+    // the structural type keeps its accessors apart: an integer that fits i64 answers `as_i64` only, a float `as_f64` only (the engine's number
+    // is `as_f64().or_else(as_i64)`); the by-value type answers both, like serde_json
+    fn as_f64(&self) -> Option<f64> { match self { AltG::Float(f) => Some(*f), AltG::Int(i) => if V { Some(*i as f64) } else { None }, AltG::Uint(u) => if V || i64::try_from(*u).is_err() { Some(*u as f64) } else { None }, _ => None } }
     fn as_bool(&self) -> Option<bool> { match self { AltG::Bool(b) => Some(*b), _ => None } }
     fn null() -> Self { AltG::Null }
     fn extension_custom(name: &str, args: Vec<std::borrow::Cow<Self>>) -> Self {
@@ -460,7 +467,8 @@ impl<const V: bool> PartialEq for AltG<V> {
     fn eq(&self, other: &Self) -> bool {
         fn num<const V: bool>(a: &AltG<V>) -> Option<f64> { match a { AltG::Int(i) => Some(*i as f64), AltG::Uint(u) => Some(*u as f64), AltG::Float(f) => Some(*f), _ => None } }
         match (self, other) {
-            (AltG::Null, AltG::Null) => true,
+            (AltG::Null | AltG::Undef, AltG::Null | AltG::Undef) => true,
+            (AltG::Str(a) | AltG::Sym(a), AltG::Str(b) | AltG::Sym(b)) => a == b,
             (AltG::Bool(a), AltG::Bool(b)) => a == b,
             (AltG::Str(a), AltG::Str(b)) => a == b,
             (AltG::Arr(a), AltG::Arr(b)) => a == b,
